@@ -7,8 +7,8 @@ from vlib import harness
 
 ID = "C02"
 LEVEL = "exploration"
-TECHNIQUE = "runtime monitor: incarnation-id reference model vs ==/hash()/is_running() over generated histories with clock steps"
-RULE = ("one case = one history (spawn/exit/reap/reuse, clock_step(+-d) rewriting btime in /proc/stat, boot_time(), "
+TECHNIQUE = "runtime monitor: incarnation-id reference model vs ==/hash()/is_running() over generated histories with clock steps; live kernel: real children, zombie, a really recycled pid"
+RULE = ("live part: objects of every origin for real children (equal/hash/is_running while running and as a zombie, unequal across processes, False ever after the reap, unequal to the newcomer once vlib.livereuse made the kernel recycle the pid). one case = one history (spawn/exit/reap/reuse, clock_step(+-d) rewriting btime in /proc/stat, boot_time(), "
         "process_iter(), create_time(), is_running()) with Process objects created at arbitrary points; every pair of "
         "objects is compared (==, !=, hash) and is_running() of every object is checked at the end and wherever the "
         "history asks. all valid histories to depth D over a 14-op alphabet are enumerated, plus random histories over "
@@ -270,11 +270,116 @@ def run_fresh(shard, acc):
         acc.case(dict(hist=[list(o) for o in h], fresh=True), bool(res.get("nontrivial")), viols)
 
 
+# ---- live kernel: real processes, a really recycled pid ----------------------------------------------------
+
+def run_live(shard, acc):
+    """Objects of every origin (Process(pid), psutil.Popen, process_iter entry) for real children: same process =>
+    equal + same hash + is_running() True (also as a zombie); different processes => unequal; after death and after the
+    kernel really handed the pid to a new process (vlib.livereuse): unequal to the newcomer, is_running() False on every
+    later call, whatever is asked in between."""
+    import os
+    import subprocess
+    import sys
+    import time
+    from vlib import livereuse
+    ps = setup()["ps"]
+    ps.PROCFS_PATH = "/proc"
+    env = {k: v for k, v in os.environ.items() if k != "LD_PRELOAD"}
+    argv = [sys.executable, "-S", "-c", "import time\nwhile True: time.sleep(1000)"]
+    viols = []
+
+    def pairs(tag, objs, same):
+        for i, a in enumerate(objs):
+            for b in objs[i + 1:]:
+                acc.count("pairs_compared")
+                acc.count("live_pairs_compared")
+                eq, ne = (a == b), (a != b)
+                if eq != same or ne == same:
+                    viols.append((f"live:eq_{eq}_want_{same}", f"{tag}: {a!r} vs {b!r}"))
+                if same and hash(a) != hash(b):
+                    viols.append(("live:hash_differs_for_equal_objects", f"{tag}: {a!r} vs {b!r}"))
+
+    for round_ in range(shard.get("rounds", 1)):
+        kid = ps.Popen(argv, env=env)
+        other = subprocess.Popen(argv, env=env)
+        try:
+            a = [ps.Process(kid.pid), ps.Process(kid.pid), kid, [p for p in ps.process_iter() if p.pid == kid.pid][0]]
+            b = [ps.Process(other.pid), [p for p in ps.process_iter() if p.pid == other.pid][0]]
+            pairs("same live child", a, True)
+            pairs("same live child", b, True)
+            for x in a:
+                for y in b:
+                    acc.count("pairs_compared")
+                    if x == y or not (x != y):
+                        viols.append(("live:eq_True_want_False", f"different processes: {x!r} vs {y!r}"))
+            for x in a + b:
+                acc.count("is_running_checked")
+                if x.is_running() is not True:
+                    viols.append(("live:is_running_False_want_True", f"live child: {x!r}"))
+            # zombie: still the same process
+            os.kill(kid.pid, 9)
+            time.sleep(0.2)
+            z = ps.Process(kid.pid)
+            if z.status() == ps.STATUS_ZOMBIE:
+                acc.count("live_zombie_states_checked")
+                pairs("zombie vs objects made while it ran", a + [z], True)
+                for x in a + [z]:
+                    acc.count("is_running_checked")
+                    if x.is_running() is not True:
+                        viols.append(("live:is_running_False_want_True:zombie", f"{x!r}"))
+            kid.wait()
+            for n in range(3):
+                for x in a:
+                    acc.count("is_running_checked")
+                    if x.is_running() is not False:
+                        viols.append(("live:is_running_True_want_False", f"reaped child, call #{n}: {x!r}"))
+            pid = kid.pid
+            with livereuse.Recycled(pid) as rec:
+                if not rec.ok:
+                    acc.count("live_reuse_skipped")
+                    acc.extra.setdefault("live_reuse_skipped", []).append(rec.why)
+                else:
+                    acc.count("live_pid_recyclings")
+                    # (the process_iter() entry of that pid is still the old owner's object until is_running() finds it
+                    # recycled - that is C04's business; here the newcomer is represented by objects made now)
+                    fresh = [ps.Process(pid), ps.Process(pid)]
+                    pairs("newcomer", fresh, True)
+                    for n in range(3):
+                        for x in a:
+                            for y in fresh:
+                                acc.count("pairs_compared")
+                                if x == y or not (x != y):
+                                    viols.append(("live:eq_True_want_False", f"old owner's object vs the newcomer of pid {pid}: {x!r} vs {y!r}"))
+                            acc.count("is_running_checked")
+                            if x.is_running() is not False:
+                                viols.append(("live:is_running_True_want_False", f"pid {pid} recycled, call #{n}: {x!r}"))
+                        for y in fresh:
+                            acc.count("is_running_checked")
+                            if y.is_running() is not True:
+                                viols.append(("live:is_running_False_want_True", f"newcomer of pid {pid}, call #{n}: {y!r}"))
+                        # "whatever is asked in between"
+                        ps.boot_time(), ps.pids(), list(ps.process_iter()), ps.pid_exists(pid)
+                        if n == 1:
+                            ps.process_iter.cache_clear()
+                    later = [p for p in ps.process_iter() if p.pid == pid]
+                    if later:
+                        pairs("newcomer vs its process_iter entry after the reuse was noticed", fresh + later, True)
+        finally:
+            for c in (kid, other):
+                try:
+                    c.kill()
+                except Exception:  # noqa: BLE001
+                    pass
+                c.wait()
+    acc.case(dict(kind="live"), True, viols)
+
+
 def plan(tier, seed):
     depth = 5 if tier == "quick" else 6
     nrand = 36000 if tier == "quick" else 500000
     nparts = 16 if tier == "quick" else 48
-    shards = [dict(kind="fresh", seed=seed, nrand=8 if tier == "quick" else 200)]
+    shards = [dict(kind="fresh", seed=seed, nrand=8 if tier == "quick" else 200),
+              dict(kind="live", rounds=1 if tier == "quick" else 4, timeout=1500)]
     for i in range(nparts):
         shards.append(dict(kind="enum", depth=depth, part=i, parts=nparts))
     for s, c in harness.split_range(nrand, nparts):
@@ -286,7 +391,9 @@ def run_shard(shard):
     acc = harness.Acc(max_samples=2)
     setup()
     k = shard["kind"]
-    if k == "enum":
+    if k == "live":
+        run_live(shard, acc)
+    elif k == "enum":
         if shard["part"] == 0:
             # longer hand-written patterns: a fresh object for the new owner of a pid is cached by process_iter(), a stale
             # handle of the old owner reports the reuse, the iterator refreshes its entry - the fresh object must stay valid
